@@ -281,7 +281,7 @@ def run(pid, tier, seed, replay=None):
         else:
             new_fail.append(c)
     for key, (k, c) in known_hits.items():
-        lines_out.append(f"KNOWN-FINDING: property={pid} {key}: {k['what']} (e.g. {c.be} `{c.line}` -> {c.impl})")
+        lines_out.append(f"KNOWN-FINDING: property={pid} {key}: {k['what']} (e.g. {c.be} `{c.line}` -> {c.impl[:120]})")
     for f in extra_fail:
         k = None
         for kk in known:
